@@ -120,6 +120,7 @@ CHECKS = {
             {"gen": "C11srv", "quick": 800, "thorough": 8000},
             {"gen": "C11roam", "quick": 120, "thorough": 1200},
             {"gen": "C11users", "quick": 400, "thorough": 8000},
+            {"gen": "C11late", "quick": 800, "thorough": 16000},
         ],
         "rule": "three parts. (a) exhaustive: every sequence of length 2..5 over the 14-value boundary alphabet {0,1,63,64,65,8127,8128,8129,8191,8192,8193,16389,2^64-2,2^64-1} x limits {2^64-1, 8192, 65}, "
                 "the real PacketWindowFilter compared step by step with a set-based reference model (accept iff id < limit and (id > max or (max - id <= 8128 and id not seen))). "
@@ -131,13 +132,14 @@ CHECKS = {
         "assumptions": ASSUME_SYSTEM + ["the reference model is the harness's reading of the property statement (window 8128, limit exclusive)", "packet ids near 2^64 are exercised at component level and by C12's exhaustion part",
                                         "generator C11srv (the client's side of the rule): a reference *server* answers the real client's datagram session with a scripted arrival order of (server session, packet id) pairs - two server sessions interleaved (restart / expired association with stragglers of the old session still in flight), duplicates, ids behind the window, gaps, jumps beyond the ring; what the application receives is compared step by step with the predicate kept per server session",
                                         "generator C11roam: the in-path attacker scenario - a datagram whose id was accepted must stay refused when the same datagram arrives again from another source address",
+                                        "generator C11late: a reference client's session to a target that answers or never answers; 0.3-28 s later (timestamps still acceptable) the same datagrams arrive again, from the same or another address, then a fresh id: nothing is relayed twice, the fresh id is relayed",
                                         "generator C11users: multi-user server; another registered user's datagram that carries this session's id (packet ids just ahead of, beyond and far beyond the window) is refused and must leave the session's window where it was: every later fresh id of the session's owner is relayed exactly once"],
     },
     "C16": {
         "level": "fault_enumeration",
-        "parts": [{"gen": "C16", "quick": 675, "thorough": 675, "exhaustive": True}],
+        "parts": [{"gen": "C16", "quick": 687, "thorough": 687, "exhaustive": True}],
         "exhaustive_claim": True,
-        "rule": "exhaustive over the documented names (675 cases, the seed is the case index): every cipher name (7 + the chacha20-ietf-poly1305 alias) x every server mode (tcp, udp, tcp_and_udp, quic, tcp_and_quic), "
+        "rule": "exhaustive over the documented names (687 cases, the seed is the case index): every cipher name (7 + the chacha20-ietf-poly1305 alias) x every server mode (tcp, udp, tcp_and_udp, quic, tcp_and_quic), "
                 "default modes, every client mode x protocol, every Shadowsocks-2022 key length 0..48 bytes as client password, server password and user-table key, and 26 undocumented cipher / protocol / mode strings "
                 "or missing ciphers on either side (for Shadowsocks entries and, the cipher names, for VMess and Trojan entries too); transport sections ssl, ws, ssl+ws and quic (incl. the quic / tcp_and_quic server modes with a QUIC endpoint in the registry and datagrams over quic); Shadowsocks-2022 key lists of 1-4 keys whose identity-header chain on stream and datagram is compared with the one the reference computes. Each case boots the real client and server main() with that JSON. Oracle: the TCP listeners and UDP sockets in the simulated registry equal the documented set for the mode, "
                 "a canary TCP flow and/or UDP exchange works over them, undocumented names and wrong-length keys leave the affected side not serving and its main() ended; never a panic.",
